@@ -12,10 +12,14 @@ package main
 
 import (
 	"bytes"
+	"encoding/json"
 	"encoding/xml"
 	"errors"
 	"fmt"
 	"io"
+	"os"
+	"os/exec"
+	"path/filepath"
 	"sort"
 	"strconv"
 	"strings"
@@ -229,11 +233,14 @@ func (g c03gen) badXML() string {
 }
 
 func (g c03gen) size(small bool) int {
+	if small && g.r.Chance(1, 30) {
+		return g.r.Range(3000, 20000)
+	}
 	k := g.r.Intn(20)
 	switch {
-	case k < 12 || (small && k < 18):
+	case k < 11 || (small && k < 18):
 		return g.r.Range(1, 200)
-	case k < 18 || small:
+	case k < 17 || small:
 		return g.r.Range(200, 3000)
 	default:
 		return g.r.Range(3000, 20000)
@@ -241,7 +248,7 @@ func (g c03gen) size(small bool) int {
 }
 
 func (g c03gen) datastore() string {
-	return g.r.Pick([]string{"running", "candidate", "startup", "running", "candidate", "my-store", "ds_1", "é"})
+	return g.r.Pick([]string{"running", "candidate", "startup", "running", "candidate", "startup", "url", "my-store", "ds_1", "é"})
 }
 
 func (g c03gen) plain(n int) string {
@@ -257,18 +264,29 @@ func (g c03gen) plain(n int) string {
 
 type c03op struct {
 	kind       string
+	variant    string // which API variant of the operation this is (evidence distribution)
 	src, tgt   string
 	filter     string
 	ftype      string // "" = leave default
+	ftypeTwice bool   // the filter type is first set to the other value, then to ftype (last one wins)
 	defaults   string
 	config     string
 	confirmed  bool
 	timeout    uint
 	persist    string
 	persistID  string
-	wellFormed bool // the innerxml payload (if any) is well-formed XML
-	wantErr    bool // the call must fail before anything is written
+	period     int
+	stray      int    // extra options that must not influence this operation (bit mask, see strayOpts)
+	wellFormed bool   // the innerxml payload (if any) is well-formed XML
+	wantErr    bool   // the call must fail before anything is written
+	errClass   string // … with this error class
+	failOpt    bool   // a caller-supplied option that returns an error
 }
+
+// c03kinds: operation kinds with their weights (every kind the API offers; edit-config and get-config
+// carry the large payload / option spaces).
+var c03kinds = []string{"get", "get", "get-config", "get-config", "get-config", "edit-config", "edit-config", "edit-config",
+	"copy-config", "delete-config", "lock", "unlock", "validate", "commit", "commit", "discard", "rpc", "rpc", "subscribe", "reject"}
 
 func (g c03gen) op(small, exoticOK bool) c03op {
 	o := c03op{wellFormed: true}
@@ -281,87 +299,185 @@ func (g c03gen) op(small, exoticOK bool) c03op {
 		// bytes.ReplaceAll also rewrites textual copies of a matched element (see c03direct)
 		return g.xmlDoc(g.size(small), exoticOK && g.r.Chance(1, 12))
 	}
-	switch g.r.Intn(14) {
-	case 0:
-		o.kind = "get"
-		if g.r.Chance(1, 3) {
-			o.ftype = "xpath"
-			o.filter = g.plain(g.size(small) / 4)
-		} else {
-			if g.r.Bool() {
-				o.ftype = "subtree"
-			}
-			o.filter = payload()
-		}
-	case 1, 2:
-		o.kind = "get-config"
-		o.src = g.datastore()
-		switch g.r.Intn(4) {
+	// filterVariant: 0 none, 1 subtree (type left default), 2 subtree (type set), 3 xpath,
+	// 4 subtree set after xpath, 5 xpath set after subtree
+	filterVariant := func(k int) string {
+		switch k {
 		case 0:
+			return "nofilter"
 		case 1:
-			o.ftype = "xpath"
-			o.filter = g.plain(g.size(small) / 4)
-		default:
 			o.filter = payload()
+			return "subtree-default"
+		case 2:
+			o.ftype, o.filter = "subtree", payload()
+			return "subtree-set"
+		case 3:
+			o.ftype, o.filter = "xpath", g.plain(1+g.size(small)/4)
+			return "xpath"
+		case 4:
+			o.ftype, o.ftypeTwice, o.filter = "subtree", true, payload()
+			return "subtree-after-xpath"
+		default:
+			o.ftype, o.ftypeTwice, o.filter = "xpath", true, g.plain(1+g.size(small)/4)
+			return "xpath-after-subtree"
 		}
-		if g.r.Chance(1, 2) {
-			o.defaults = g.r.Pick([]string{"report-all", "report-all-tagged", "trim", "explicit"})
-		}
-	case 3, 4, 5:
-		o.kind = "edit-config"
-		o.tgt = g.datastore()
-		o.config = payload()
-	case 6:
-		o.kind = "copy-config"
-		o.src, o.tgt = g.datastore(), g.datastore()
-	case 7:
-		o.kind = "delete-config"
-		o.tgt = g.datastore()
-	case 8:
-		o.kind = g.r.Pick([]string{"lock", "unlock"})
-		o.tgt = g.datastore()
-	case 9:
-		o.kind = "validate"
+	}
+	o.kind = g.r.Pick(c03kinds)
+	switch o.kind {
+	case "get":
+		o.variant = filterVariant(g.r.Intn(6))
+	case "get-config":
 		o.src = g.datastore()
-	case 10:
-		o.kind = "commit"
-		o.confirmed = g.r.Bool()
-		if g.r.Bool() {
-			o.timeout = uint(g.r.Range(1, 100000))
+		fv := filterVariant(g.r.Intn(6))
+		o.defaults = g.r.Pick([]string{"", "report-all", "report-all-tagged", "trim", "explicit"})
+		o.variant = fv + "+defaults=" + o.defaults
+	case "edit-config":
+		o.tgt = g.datastore()
+		switch g.r.Intn(8) {
+		case 0:
+			o.variant = "empty-config"
+		default:
+			o.config = payload()
+			o.variant = "config"
+			if !o.wellFormed {
+				o.variant = "malformed-config"
+			}
 		}
-		if g.r.Chance(1, 3) {
+	case "copy-config":
+		o.src, o.tgt = g.datastore(), g.datastore()
+		o.variant = "src/tgt"
+	case "delete-config", "lock", "unlock":
+		o.tgt = g.datastore()
+		o.variant = "tgt"
+	case "validate":
+		o.src = g.datastore()
+		o.variant = "src"
+	case "commit":
+		// all 16 combinations of confirmed x confirm-timeout x persist x persist-id, uniformly
+		k := g.r.Intn(16)
+		o.confirmed = k&1 != 0
+		if k&2 != 0 {
+			o.timeout = []uint{1, 59, 600, 4294967295, uint(g.r.Range(2, 100000))}[g.r.Intn(5)]
+		}
+		if k&4 != 0 {
 			o.persist = g.plain(g.r.Range(1, 30))
 		}
-		if g.r.Chance(1, 3) {
+		if k&8 != 0 {
 			o.persistID = g.plain(g.r.Range(1, 30))
 		}
-	case 11:
-		o.kind = "discard"
-	case 12:
-		o.kind = "rpc"
-		if !g.r.Chance(1, 10) {
+		o.variant = fmt.Sprintf("confirmed=%d timeout=%d persist=%d persist-id=%d", k&1, k>>1&1, k>>2&1, k>>3&1)
+	case "discard":
+		o.variant = "plain"
+	case "rpc":
+		switch g.r.Intn(10) {
+		case 0:
+			o.variant = "empty"
+		case 1:
+			o.filter = g.r.Pick([]string{" ", "\n", " \n\t "})
+			o.variant = "white-space-only"
+		case 2:
+			o.filter = `<get message-id="999"><filter type="subtree"><a/></filter></get>`
+			o.variant = "own-message-id-attribute"
+		case 3:
+			o.filter = `<rpc xmlns="urn:x" message-id="1"><get/></rpc>`
+			o.variant = "nested-rpc"
+		case 4:
+			o.filter = "</rpc>" + g.r.Pick([]string{"", "<rpc>", "\n##\n"})
+			o.wellFormed = false
+			o.variant = "closes-rpc-early"
+		case 5:
+			o.filter = "é✓日本𝔘 plain text, no element"
+			o.variant = "text-only"
+		default:
 			o.filter = payload()
+			o.variant = "payload"
+			if !o.wellFormed {
+				o.variant = "malformed-payload"
+			}
 		}
+	case "subscribe":
+		o.filter = g.plain(g.r.Range(0, 60))
+		o.period = c03pick3(g.r, -5, 0, g.r.Range(1, 1000000))
+		o.variant = "periodic"
 	default:
 		// rejected before anything is built: must write nothing and must not consume a message-id
 		o.wantErr = true
-		if g.r.Bool() {
-			o.kind = "get-config"
-			o.src = "running"
-			o.defaults = "report-everything"
-		} else {
-			o.kind = "get"
-			o.filter = "<a/>"
-			o.ftype = "regex"
+		o.errClass = "netconf"
+		switch g.r.Intn(7) {
+		case 0:
+			o.kind, o.src, o.defaults = "get-config", "running", "report-everything"
+			o.variant = "rejected:defaults-mode"
+		case 1:
+			o.kind, o.filter, o.ftype = "get", "<a/>", "regex"
+			o.variant = "rejected:filter-type"
+		case 2:
+			o.kind, o.src, o.filter, o.ftype = "get-config", "candidate", "<a/>", "XPATH"
+			o.variant = "rejected:filter-type"
+		default:
+			// a caller-supplied option that fails: every entry point that takes options
+			o.kind = g.r.Pick([]string{"get", "get-config", "commit", "rpc"})
+			o.src, o.filter = "running", "<a/>"
+			o.failOpt, o.errClass = true, "badoption"
+			o.variant = "rejected:failing-option"
 		}
+		return o
+	}
+	if g.r.Chance(1, 4) {
+		o.stray = g.r.Range(1, 31)
 	}
 	return o
 }
 
+// c03pick3 picks one of three values.
+func c03pick3(r *vlib.Rng, a, b, c int) int {
+	switch r.Intn(3) {
+	case 0:
+		return a
+	case 1:
+		return b
+	}
+	return c
+}
+
+// strayOpts are options that the given operation kind does not use: they set OperationOptions fields
+// the operation must ignore, or are not operation options at all (ignored by NewOperation).
+func (o *c03op) strayOpts() []util.Option {
+	var out []util.Option
+	add := func(bit int, kinds string, opt util.Option) {
+		if o.stray&bit != 0 && !strings.Contains(" "+kinds+" ", " "+o.kind+" ") {
+			out = append(out, opt)
+		}
+	}
+	// (bit, kinds that DO use the option, option)
+	add(1, "get-config rpc", opoptions.WithFilter("<stray-filter/>"))
+	add(2, "get-config", opoptions.WithDefaultType("trim"))
+	add(4, "commit", opoptions.WithCommitConfirmed())
+	add(4, "commit", opoptions.WithCommitConfirmedPersistID("stray-id"))
+	add(8, "commit", opoptions.WithCommitConfirmTimeout(77))
+	add(8, "get get-config", opoptions.WithFilterType("xpath"))
+	add(16, "", options.WithNetconfExcludeHeader())     // a driver option: not for *OperationOptions, ignored
+	add(16, "", opoptions.WithNoStripPrompt())          // a channel operation option: ignored as well
+	add(2, "", opoptions.WithTimeoutOps(5*time.Second)) // per-operation timeout: must not change the request
+	return out
+}
+
 func (o *c03op) call(d *netconf.Driver) (*response.NetconfResponse, error) {
 	var opts []util.Option
+	if o.stray != 0 {
+		opts = append(opts, o.strayOpts()...)
+	}
 	if o.ftype != "" {
+		if o.ftypeTwice {
+			other := "xpath"
+			if o.ftype == "xpath" {
+				other = "subtree"
+			}
+			opts = append(opts, opoptions.WithFilterType(other))
+		}
 		opts = append(opts, opoptions.WithFilterType(o.ftype))
+	}
+	if o.failOpt {
+		opts = append(opts, func(interface{}) error { return fmt.Errorf("%w: c03 failing option", util.ErrBadOption) })
 	}
 	switch o.kind {
 	case "get":
@@ -387,23 +503,31 @@ func (o *c03op) call(d *netconf.Driver) (*response.NetconfResponse, error) {
 	case "validate":
 		return d.Validate(o.src)
 	case "commit":
+		// the four commit options in a rotating order (the order must not matter)
+		var co []util.Option
 		if o.confirmed {
-			opts = append(opts, opoptions.WithCommitConfirmed())
+			co = append(co, opoptions.WithCommitConfirmed())
 		}
 		if o.timeout > 0 {
-			opts = append(opts, opoptions.WithCommitConfirmTimeout(o.timeout))
+			co = append(co, opoptions.WithCommitConfirmTimeout(o.timeout))
 		}
 		if o.persist != "" {
-			opts = append(opts, opoptions.WithCommitConfirmedPersist(o.persist))
+			co = append(co, opoptions.WithCommitConfirmedPersist(o.persist))
 		}
 		if o.persistID != "" {
-			opts = append(opts, opoptions.WithCommitConfirmedPersistID(o.persistID))
+			co = append(co, opoptions.WithCommitConfirmedPersistID(o.persistID))
 		}
-		return d.Commit(opts...)
+		if n := len(co); n > 1 {
+			k := int(o.timeout+uint(len(o.persist))) % n
+			co = append(co[k:], co[:k]...)
+		}
+		return d.Commit(append(opts, co...)...)
 	case "discard":
 		return d.Discard()
 	case "rpc":
-		return d.RPC(opoptions.WithFilter(o.filter))
+		return d.RPC(append(opts, opoptions.WithFilter(o.filter))...)
+	case "subscribe":
+		return d.EstablishPeriodicSubscription(o.filter, o.period)
 	}
 	return nil, errors.New("c03: unknown op " + o.kind)
 }
@@ -498,6 +622,9 @@ func (o *c03op) expectedInner() string {
 		return "<discard-changes/>"
 	case "rpc":
 		return o.filter
+	case "subscribe":
+		return `<establish-subscription xmlns="urn:ietf:params:xml:ns:yang:ietf-event-notifications" xmlns:yp="urn:ietf:params:xml:ns:yang:ietf-yang-push">` +
+			"<stream>yp:yang-push</stream><yp:xpath-filter>" + c03esc(o.filter) + "</yp:xpath-filter><yp:period>" + strconv.Itoa(o.period) + "</yp:period></establish-subscription>"
 	}
 	return ""
 }
@@ -509,8 +636,8 @@ func (o *c03op) describe() string {
 		}
 		return s
 	}
-	return fmt.Sprintf("%s src=%q tgt=%q ftype=%q defaults=%q filter=%q config=%q confirmed=%v timeout=%d persist=%q persist-id=%q",
-		o.kind, o.src, o.tgt, o.ftype, o.defaults, trim(o.filter), trim(o.config), o.confirmed, o.timeout, trim(o.persist), trim(o.persistID))
+	return fmt.Sprintf("%s[%s] src=%q tgt=%q ftype=%q(twice=%v) defaults=%q filter=%q config=%q confirmed=%v timeout=%d persist=%q persist-id=%q period=%d stray=%d",
+		o.kind, o.variant, o.src, o.tgt, o.ftype, o.ftypeTwice, o.defaults, trim(o.filter), trim(o.config), o.confirmed, o.timeout, trim(o.persist), trim(o.persistID), o.period, o.stray)
 }
 
 // ---------------------------------------------------------------------------------------------
@@ -616,6 +743,9 @@ func c03diff(path string, a, b *c03node) string {
 // sessions on the real driver
 
 type c03sessCase struct {
+	neg    int // index into c03negotiations[v]
+	wfK    int // replay of a write-failure case: request index and phase (-1: chosen by position)
+	wfPh   int
 	line   string // replayable: "c03 sess <v> <sc> <nh> <seed> <nops> <small>"
 	v      string
 	sc, nh bool
@@ -652,15 +782,41 @@ func c03errClass(err error) string {
 	return "other"
 }
 
-func c03runSession(v string, sc, nh bool, ops []c03op) c03obs {
+// c03negotiations: how the session arrives at its framing (server capabilities x preferred version).
+var c03negotiations = map[string][]struct {
+	caps10, caps11 bool
+	preferred      string
+}{
+	"1.0": {{true, false, ""}, {true, false, "1.0"}, {true, true, "1.0"}},
+	"1.1": {{true, true, ""}, {true, true, "1.1"}, {false, true, ""}, {false, true, "1.1"}},
+}
+
+func c03runSession(v string, neg int, sc, nh bool, ops []c03op) c03obs {
+	return c03runSessionFault(v, neg, sc, nh, ops, -1)
+}
+
+// c03runSessionFault: writeErrAfter >= 0 makes the transport refuse every write that would take
+// the total number of written bytes beyond that count.
+func c03runSessionFault(v string, neg int, sc, nh bool, ops []c03op, writeErrAfter int) c03obs {
 	var o c03obs
-	s := sim.NewNCServer(true, v == "1.1")
+	ng := c03negotiations[v][neg%len(c03negotiations[v])]
+	s := sim.NewNCServer(ng.caps10, ng.caps11)
+	s.WriteErrAfter = writeErrAfter
 	s.Behave = func(i int, req sim.NCRequest) sim.NCReply {
+		if bytes.Contains(req.Raw, []byte("<establish-subscription ")) {
+			// lower-case subscription-id: the read loop stores this reply with storeSubscriptionMessage
+			// concurrently with the caller registering the subscription (the once racy pair, see
+			// c03raceChild)
+			return sim.NCReply{Payload: []byte(fmt.Sprintf(`<rpc-reply xmlns="%s" message-id="%d"><subscription-result xmlns="urn:ietf:params:xml:ns:yang:ietf-event-notifications">notif-bis:ok</subscription-result><subscription-id xmlns="urn:ietf:params:xml:ns:yang:ietf-event-notifications">%d</subscription-id></rpc-reply>`, c03BaseNS, req.MessageID, 1000+i))}
+		}
 		return sim.NCReply{Payload: []byte(fmt.Sprintf(`<rpc-reply xmlns="%s" message-id="%d"><ok/></rpc-reply>`, c03BaseNS, req.MessageID))}
 	}
 	s.Start()
 	dopts := []util.Option{options.WithCustomTransport(s), options.WithAuthBypass(),
 		options.WithTimeoutOps(2 * time.Second), options.WithReadDelay(20 * time.Microsecond)}
+	if ng.preferred != "" {
+		dopts = append(dopts, options.WithNetconfPreferredVersion(ng.preferred))
+	}
 	if sc {
 		dopts = append(dopts, options.WithNetconfForceSelfClosingTags())
 	}
@@ -691,7 +847,7 @@ func c03runSession(v string, sc, nh bool, ops []c03op) c03obs {
 			o.inputs = append(o.inputs, nil)
 			o.framed = append(o.framed, nil)
 			if !ops[i].wantErr {
-				if errors.Is(err, util.ErrTimeoutError) {
+				if errors.Is(err, util.ErrTimeoutError) && writeErrAfter < 0 {
 					c03timeouts.Add(1)
 				}
 				break // a request that got no reply: the rest of the session would only time out too
@@ -729,7 +885,11 @@ func (g c03gen) session(v string, sc, nh bool, nops int, small bool) []c03op {
 
 func c03mkSession(v string, sc, nh bool, seed uint64, nops int, small bool) c03sessCase {
 	g := c03gen{r: vlib.NewRng(seed)}
+	neg := g.r.Intn(len(c03negotiations[v]))
 	return c03sessCase{
+		neg:  neg,
+		wfK:  -1,
+		wfPh: -1,
 		line: fmt.Sprintf("c03 sess %s %s %s %d %d %s", v, c03b(sc), c03b(nh), seed, nops, c03b(small)),
 		v:    v, sc: sc, nh: nh, ops: g.session(v, sc, nh, nops, small),
 	}
@@ -777,13 +937,15 @@ func c03fscSig(impl, model, asIs []byte) string {
 
 func runC03(c *ctx) {
 	res := c.res
-	res.Rule = "sessions: {1.0,1.1} x ForceSelfClosingTags x ExcludeHeader x 1..30 requests drawn from get/get-config/edit-config/copy-config/delete-config/lock/unlock/validate/commit(+confirmed/timeout/persist)/discard/raw rpc with generated XML (attributes, namespaces, prefixed names, empty / white-space-only / already self-closed elements, same-name nesting, multi-byte text, '##' and '#<n>' lines, 1..20000 bytes) plus malformed payloads; direct: ForceSelfClosingTags on generated XML (with and without comments/CDATA/processing instructions), byte soup and token soup. non-trivial = a request that was sent (distinct by version/options/position/bytes) or a direct rewrite input containing '</'"
+	res.Rule = "sessions: {1.0,1.1} (reached through 7 server-capability x preferred-version negotiations) x ForceSelfClosingTags x ExcludeHeader x 1..30 requests drawn from every API variant of get(6 filter variants)/get-config(6 filter variants x 5 defaults modes)/edit-config/copy-config/delete-config/lock/unlock/validate/commit(all 16 combinations of confirmed, confirm-timeout, persist, persist-id)/discard/raw rpc(8 payload kinds)/EstablishPeriodicSubscription, a quarter of them with extra options the operation must ignore, plus calls that must be rejected before anything is written (bad filter type, bad defaults mode, failing caller option) and transport write failures at each of the 2-3 writes of a request; payloads are generated XML (attributes, namespaces, prefixed names, empty / white-space-only / already self-closed elements, same-name nesting, multi-byte text, '##' and '#<n>' lines, 1..20000 bytes) plus malformed payloads; direct: ForceSelfClosingTags on generated XML (with and without comments/CDATA/processing instructions), byte soup and token soup. non-trivial = a request that was sent (distinct by version/options/position/bytes) or a direct rewrite input containing '</'"
 	type sessParam struct {
 		v      string
 		sc, nh bool
 		seed   uint64
 		nops   int
 		small  bool
+		wfK    int
+		wfPh   int
 	}
 	var sess []sessParam
 	var direct [][]byte
@@ -795,10 +957,18 @@ func runC03(c *ctx) {
 	if c.replay != "" {
 		f := strings.Fields(c.replay)
 		switch {
-		case len(f) == 8 && f[1] == "sess":
+		case (len(f) == 8 || (len(f) == 11 && f[8] == "wf")) && f[1] == "sess":
 			seed, _ := strconv.ParseUint(f[5], 10, 64)
 			nops, _ := strconv.Atoi(f[6])
-			sess = append(sess, sessParam{f[2], f[3] == "1", f[4] == "1", seed, nops, f[7] == "1"})
+			sp := sessParam{f[2], f[3] == "1", f[4] == "1", seed, nops, f[7] == "1", -1, -1}
+			if len(f) == 11 {
+				sp.wfK, _ = strconv.Atoi(f[9])
+				sp.wfPh, _ = strconv.Atoi(f[10])
+			}
+			sess = append(sess, sp)
+		case len(f) == 3 && f[1] == "subrace":
+			c.c03raceChild()
+			return
 		case len(f) == 3 && f[1] == "fsc":
 			b, _ := vlib.UnHex(f[2])
 			addDirect("replay", b)
@@ -826,7 +996,7 @@ func runC03(c *ctx) {
 				nops = r.Range(13, 30)
 				small = true
 			}
-			sess = append(sess, sessParam{v, sc, nh, r.U64(), nops, small})
+			sess = append(sess, sessParam{v, sc, nh, r.U64(), nops, small, -1, -1})
 		}
 		// direct ForceSelfClosingTags inputs
 		g := c03gen{r: r}
@@ -863,6 +1033,9 @@ func runC03(c *ctx) {
 		c03direct(c, direct[lo:hi], directClass[lo:hi])
 	}
 	c03directNotes(res)
+	if c.replay == "" {
+		c.c03raceChild()
+	}
 	for lo := 0; lo < len(sess); lo += 160 {
 		hi := lo + 160
 		if hi > len(sess) {
@@ -870,9 +1043,56 @@ func runC03(c *ctx) {
 		}
 		var batch []c03sessCase
 		for _, p := range sess[lo:hi] {
-			batch = append(batch, c03mkSession(p.v, p.sc, p.nh, p.seed, p.nops, p.small))
+			cs := c03mkSession(p.v, p.sc, p.nh, p.seed, p.nops, p.small)
+			cs.wfK, cs.wfPh = p.wfK, p.wfPh
+			batch = append(batch, cs)
 		}
 		c03sessions(c, batch)
+	}
+}
+
+// c03raceChild builds cmd/c03race with -race next to the driver copy bin/check made and runs it:
+// 200 (thorough 1000) EstablishPeriodicSubscription calls whose replies the read loop stores
+// concurrently. A reported data race, a crash of the child or a wrong subscription store is a
+// finding; if the race binary cannot be built the run is noted, not failed.
+func (c *ctx) c03raceChild() {
+	res := c.res
+	build := filepath.Dir(c.driver)
+	mf := filepath.Join(build, "go.mod")
+	if _, err := os.Stat(mf); err != nil {
+		res.Note("subscription race child not run: no go.mod next to the driver (%s)", mf)
+		return
+	}
+	bin := filepath.Join(build, "c03race")
+	cmd := exec.Command("go", "build", "-race", "-modfile", mf, "-o", bin, "./cmd/c03race")
+	cmd.Env = append(os.Environ(), "CGO_ENABLED=1")
+	if b, err := cmd.CombinedOutput(); err != nil {
+		res.Note("subscription race child not run: go build -race failed: %s", c03clip(strings.TrimSpace(string(b)), 300))
+		return
+	}
+	calls := c.n(200, 1000)
+	line := fmt.Sprintf("c03 subrace %d", calls)
+	run := exec.Command(bin, "-calls", strconv.Itoa(calls))
+	run.Env = append(os.Environ(), "GORACE=halt_on_error=1 exitcode=66")
+	var stdout, stderr bytes.Buffer
+	run.Stdout, run.Stderr = &stdout, &stderr
+	err := run.Run()
+	res.Case(line, true)
+	res.Count("subscription-race-child:calls=" + strconv.Itoa(calls))
+	var rep struct {
+		Calls     int
+		Violation string
+		Detail    string
+	}
+	switch {
+	case strings.Contains(stderr.String(), "DATA RACE"):
+		res.Fail("oracle", line, "race detector while establishing subscriptions:\n"+c03clip(stderr.String(), 900), "subscription-race")
+	case json.Unmarshal(bytes.TrimSpace(stdout.Bytes()), &rep) != nil:
+		res.Fail("oracle", line, fmt.Sprintf("subscription child died (%v): %s", err, c03clip(stderr.String(), 600)), "subscription-child-died")
+	case rep.Violation != "":
+		res.Fail("correspondence", line, rep.Detail, "subscription-child:"+rep.Violation)
+	default:
+		res.Note("subscription race child: %d EstablishPeriodicSubscription calls under -race, no race, every establishing reply stored once under its subscription id", rep.Calls)
 	}
 }
 
@@ -976,7 +1196,7 @@ func c03sessions(c *ctx, sess []c03sessCase) {
 	// bytes) the remaining sessions are skipped: the verdict is already decided.
 	var wg sync.WaitGroup
 	next := make(chan int)
-	for w := 0; w < 8; w++ {
+	for w := 0; w < vlib.Conc(8); w++ {
 		wg.Add(1)
 		go func() {
 			defer wg.Done()
@@ -986,9 +1206,9 @@ func c03sessions(c *ctx, sess []c03sessCase) {
 					runs[i].skipped = true
 					continue
 				}
-				runs[i].obs = c03runSession(sc.v, sc.sc, sc.nh, sc.ops)
+				runs[i].obs = c03runSession(sc.v, sc.neg, sc.sc, sc.nh, sc.ops)
 				if sc.sc || !sc.nh {
-					runs[i].ref = c03runSession(sc.v, false, true, sc.ops)
+					runs[i].ref = c03runSession(sc.v, sc.neg, false, true, sc.ops)
 				} else {
 					runs[i].ref = runs[i].obs
 				}
@@ -1065,6 +1285,8 @@ func c03sessions(c *ctx, sess []c03sessCase) {
 		mAns, dAns := ans[j], ans[j+1]
 		j += 2
 		res.Count(fmt.Sprintf("session:v=%s sc=%s nh=%s", sc.v, c03b(sc.sc), c03b(sc.nh)))
+		ng := c03negotiations[sc.v][sc.neg]
+		res.Count(fmt.Sprintf("negotiation:v=%s server-caps(1.0=%v,1.1=%v) preferred=%q", sc.v, ng.caps10, ng.caps11, ng.preferred))
 		res.Count(fmt.Sprintf("session-requests:%02d-%02d", (len(sc.ops)-1)/5*5+1, (len(sc.ops)-1)/5*5+5))
 		mf := strings.Fields(mAns)
 		if len(mf) != 5 {
@@ -1091,8 +1313,9 @@ func c03sessions(c *ctx, sess []c03sessCase) {
 			op := &sc.ops[k]
 			if op.wantErr {
 				res.Count("op:rejected-before-send")
-				if o.obs.errs[k] != "netconf" || o.obs.wrote[k] != 0 {
-					res.Fail("oracle", sc.line, fmt.Sprintf("request %d (%s): want a netconf error and nothing written, got %s and %d bytes", k, op.describe(), o.obs.errs[k], o.obs.wrote[k]), "invalid-argument-sent")
+				res.Count("variant:" + op.kind + ":" + op.variant)
+				if o.obs.errs[k] != op.errClass || o.obs.wrote[k] != 0 {
+					res.Fail("oracle", sc.line, fmt.Sprintf("request %d (%s): want a %s error and nothing written, got %s and %d bytes", k, op.describe(), op.errClass, o.obs.errs[k], o.obs.wrote[k]), "invalid-argument-sent")
 				}
 				continue
 			}
@@ -1121,6 +1344,10 @@ func c03sessions(c *ctx, sess []c03sessCase) {
 			in := o.obs.inputs[k]
 			inputs = append(inputs, in)
 			res.Count("op:" + op.kind)
+			res.Count("variant:" + op.kind + ":" + op.variant)
+			if op.stray != 0 {
+				res.Count("op-with-stray-options:" + op.kind)
+			}
 			res.Count("size:" + c03sizeClass(len(in)))
 			res.Case(fmt.Sprintf("%s|%v|%v|%d|%s", sc.v, sc.sc, sc.nh, n, in), true)
 			if (i+k)%97 == 0 {
@@ -1188,6 +1415,56 @@ func c03sessions(c *ctx, sess []c03sessCase) {
 					break
 				}
 			}
+		}
+	}
+	// 3a. transport write failures: for some fault-free sessions, run the same session again with the
+	// transport refusing the framed write / the return / the second return of one request. The call
+	// must fail, and what the transport accepted must be exactly the fault-free stream (already
+	// compared with the model above) cut at that write boundary.
+	for i, sc := range sess {
+		o := &runs[i]
+		if !o.ok || ((i/8)%3 != 0 && sc.wfK < 0) || len(pending[i]) > 0 { // every third block of the 8 version x option combinations
+			continue
+		}
+		var sent []int
+		clean := true
+		for k := range sc.ops {
+			if k >= len(o.obs.errs) || (o.obs.errs[k] != "nil" && !sc.ops[k].wantErr) {
+				clean = false
+				break
+			}
+			if !sc.ops[k].wantErr {
+				sent = append(sent, k)
+			}
+		}
+		if !clean || len(sent) == 0 {
+			continue
+		}
+		k := sent[(i*7+i/24)%len(sent)]
+		phase := (i + i/24) % 3
+		if sc.wfK >= 0 && sc.wfK < len(sc.ops) {
+			k, phase = sc.wfK, sc.wfPh%3
+		}
+		if sc.v == "1.0" && phase == 2 {
+			phase = 1
+		}
+		before := len(o.obs.wire)
+		for j := k; j < len(o.obs.wrote); j++ {
+			before -= o.obs.wrote[j]
+		}
+		limit := before + []int{0, len(o.obs.framed[k]), len(o.obs.framed[k]) + 1}[phase]
+		res.Count(fmt.Sprintf("write-failure:v=%s at=%s", sc.v, []string{"framed-message", "return", "second-return"}[phase]))
+		f := c03runSessionFault(sc.v, sc.neg, sc.sc, sc.nh, sc.ops[:k+1], limit)
+		res.Case(fmt.Sprintf("wf|%s|%d|%d|%d", sc.line, k, phase, limit), true)
+		caseLine := fmt.Sprintf("%s wf %d %d", strings.Join(strings.Fields(sc.line)[:8], " "), k, phase)
+		switch {
+		case f.openErr != "":
+			res.Fail("oracle", caseLine, "write-failure session did not open: "+f.openErr, "open-failed")
+		case len(f.errs) != k+1 || f.errs[k] == "nil":
+			res.Fail("oracle", caseLine, fmt.Sprintf("request %d (%s): the transport refused the write of its %s (byte limit %d) but the call returned %v", k, sc.ops[k].describe(), []string{"framed message", "return", "second return"}[phase], limit, f.errs), "write-failure-not-reported")
+		case !bytes.Equal(f.wire, o.obs.wire[:limit]):
+			d := c03firstDiff(f.wire, o.obs.wire[:limit])
+			res.Fail("oracle", caseLine, fmt.Sprintf("request %d (%s): with the transport failing at byte %d the accepted bytes are not the fault-free stream cut there (differs at %d: %s vs %s; %d vs %d bytes)", k, sc.ops[k].describe(), limit, d, c03around(f.wire, d), c03around(o.obs.wire[:limit], d), len(f.wire), limit), "write-failure-stream")
 		}
 	}
 	// 3b. classify and emit the held-back correspondence findings
